@@ -606,10 +606,10 @@ def _log_canon(entries):
     return out
 
 
-def observe(st, text, plan, engs):
+def observe(st, text, plan, engs, tag="obs"):
     """run one program on all engines (not quiet) -> list of per-input dicts eng -> (value, log, mem); an engine
     the harness printed no M/L line for observed exactly what MIR_interp observed"""
-    rc, lines, err = st.engine(text, plan, "obs", engs=engs, quiet=False)
+    rc, lines, err = st.engine(text, plan, tag, engs=engs, quiet=False)
     errs = [l for l in lines if l.startswith("E ")]
     if rc != 0 or errs:
         return None, (errs + [err[-200:]])[0]
@@ -704,7 +704,7 @@ def stage_programs(ck, st, nprogs, per_batch, viol, known_present):
         plan = progtie.plan_for([entry], mirgen.ARGSETS)
         if f["kind"] == "engine-abort":
             return entry, "abort", None, text, plan
-        recs, e = observe(st, text, plan, ALL)
+        recs, e = observe(st, text, plan, ALL, tag="obs_" + entry)
         if recs is None:
             return entry, "abort", e, text, plan
         return entry, "judged", engine_verdicts(recs, ALL), text, plan
